@@ -232,8 +232,11 @@ struct PoolExec {
       if (!p) violate("model", site("null"), "Realloc returned null without an allocation failure");
       size_t keepn = old.n < n ? old.n : n, bad;
       if (!painted(p, keepn, old.tag, bad)) violate("model", site("realloc_contents"), "Realloc result does not start with the old contents (first difference at offset " + std::to_string(bad) + ")");
-      if (expect_same) {
-        if (p != old.p) violate("model", site("shrink_moves"), "Realloc to a smaller or equal (aligned) size did not return the same block");
+      if (expect_same && p != old.p) {   // legal (the statement only promises the contents); account for it as a move
+        needc = need_chunk(mp, na);
+        newcap = needc ? PolicyModel<Policy>::chunk(ma[a].policy_min, na) : 0;
+      }
+      if (expect_same && p == old.p) {
         mp.blocks[bi].n = n; mp.blocks[bi].tag = mp.next_tag++; paint(p, n, mp.blocks[bi].tag);  // the caller now owns n bytes; the reserved extent stays
         ob = "rs";
       } else if (expect_inplace) {
